@@ -1,13 +1,94 @@
-"""C++ half of C19 (encoded_byte_size / sizeof constants); filled in with the C++ driver machinery."""
+"""C++ half of C19: little/big/native vector encoders of the generated full codec."""
+from .. import schema as S, values as V, cppdrv
+from ..harness import Acc
+from . import common as C, cppcommon as CC
+
+PROP = 'C19'
 
 
 def shards(ctx):
-    return []
+    return CC.cpp_specs(ctx, files_quick=5, per_file=80, rand_files_quick=1)
 
 
 def replay_spec(ctx, witness):
-    raise NotImplementedError
+    return {'cpp': True, 'kind': 'replay', 'schema': witness['schema_json'], 'type': witness['type'], 'seed': 0,
+            'extra': witness}
 
 
 def run_shard(spec):
-    raise NotImplementedError
+    from .c19 import mirror_law
+    acc = Acc()
+    with C.Workdir() as wd:
+        env = CC.open_full(spec, acc, wd)
+        if env is None:
+            return acc.done()
+        sch, names, tagmap, w, rng = env['sch'], env['names'], env['tagmap'], env['wire'], env['rng']
+        cases = []
+        info = {}
+        for ti, n in enumerate(names):
+            if spec['kind'] == 'replay':
+                vals = [(spec['extra'].get('mode'), C.unjson(spec['extra']['value']))]
+            else:
+                vals = [x for x in V.value_set(sch, w, n, rng, nrand=2, aligned_greedy=True) if x[0] != 'default']
+            for mode, v in vals:
+                exp, spans = w.encode(n, v, '<')
+                cid = 'c%d' % len(cases)
+                cases.append((cid, ti, 1, 0, exp))
+                info[cid] = (n, mode, v, exp, spans)
+        res, reports = cppdrv.run_cases(env['binary'], cases)
+        for cid, (n, mode, v, data, spans) in info.items():
+            acc.ev()
+            multi = any(s[1] > 1 and s[2] not in ('pad', 'bytes') for s in spans)
+            if multi and any(s[2] == 'pad' for s in spans):
+                acc.sig('cpp' + C.span_sig(spans))
+
+            def witness(**kw):
+                sub = sch.closure(n)
+                wit = {'cpp': True, 'schema_json': sub.to_json(), 'schema': sub.to_prophy(), 'type': n,
+                       'tags': tagmap[n], 'mode': mode, 'value': C.jsonable(v)}
+                wit.update(kw)
+                return wit
+            r = res.get(cid)
+            if r is None:
+                acc.count('cases_not_executed')
+                continue
+            if r.get('timeout'):
+                acc.p['inconclusive'] = 'driver watchdog fired'
+                continue
+            if CC.reaches_misaligned_optional(sch, w, n):
+                acc.count('known_finding_types_not_judged')
+                continue
+            if 'crash' in r:
+                mech, frames = CC.crash_mechanism(r)
+                acc.violation(PROP, 'cpp:sanitizer:' + mech, witness(report=r['crash'][:3000], frames=frames))
+                continue
+            if not r.get('ok'):
+                acc.count('cpp_decode_rejected_not_judged_here')
+                continue
+            le, be, na = r.get('L', b''), r.get('B', b''), r.get('N', b'')
+            acc.count('cpp_objects_encoded')
+            if len(le) != len(data):
+                acc.count('role_map_unavailable')
+                if len(le) != len(be):
+                    acc.violation(PROP, 'cpp:lengths-differ', witness(little=C.hexs(le), big=C.hexs(be)))
+                continue
+            bad = mirror_law(le, be, spans)
+            for s in spans:
+                if s[2] not in ('pad', 'bytes'):
+                    acc.feature('cpp:%s/%d' % (s[2], s[1]))
+            acc.count('scalars_mirrored', sum(1 for s in spans if s[1] > 1 and s[2] not in ('pad', 'bytes')))
+            acc.count('padding_bytes_checked', sum(s[1] for s in spans if s[2] == 'pad'))
+            if bad:
+                acc.violation(PROP, 'cpp:' + bad[0], witness(little=C.hexs(le), big=C.hexs(be), detail=bad[1]))
+            elif na != le:
+                acc.violation(PROP, 'cpp:native-is-not-host-order', witness(little=C.hexs(le), native=C.hexs(na)))
+            elif len(acc.p['samples']) < 2 and multi:
+                acc.sample({'cpp': True, 'schema': sch.closure(n).to_prophy(), 'type': n, 'value': C.jsonable(v),
+                            'little': C.hexs(le), 'big': C.hexs(be), 'native': C.hexs(na)})
+        for rep in reports:
+            if rep.get('timeout'):
+                acc.p['inconclusive'] = 'driver watchdog fired'
+            else:
+                acc.violation(PROP, 'cpp:sanitizer-at-exit:' + (cppdrv.san_class(rep.get('stderr', '')) or 'rc=%s' % rep.get('rc')),
+                              {'schema': sch.to_prophy()[:3000], 'report': rep.get('stderr', '')[:3000]})
+    return acc.done()
